@@ -1,7 +1,7 @@
 (** C13 (registered-message half) — the codec is total: decoding an arbitrary byte string as an
     envelope, a registered message, a nested message or a handshake returns a value or an error; it
-    never crashes, never loops and — for the flat entry points — never allocates out of proportion to
-    the input.  Encoding any value of the message universe returns bytes or an error.  A failed decode
+    never crashes, never loops and never allocates out of proportion to the input (at most 10 — envelope
+    11 — bytes per input byte plus one capped 2 MiB map).  Encoding any value of the message universe returns bytes or an error.  A failed decode
     leaves the caller's state untouched.
 
     Statements only; every proof is [exact <lemma>].  Reading guide:
@@ -83,22 +83,35 @@ Theorem C13_alloc_mapss (bs : bytes) :
   | (a, MErr _) => a <= N.of_nat (length bs) + 2097152
   end.
 Proof. exact (addb_mapss bs). Qed.
-(** REFUTED for readClusterView: the member count is an unchecked uint32 — 28 bytes of input make it
-    pre-allocate a map for 2^32-1 members (24 * (2^32-1) bytes in the model; the real runtime aborts
-    with "out of memory"), and only then does the decode fail with end-of-input *)
-Theorem C13_alloc_view_refuted :
-  length view_memlen_witness = 28%nat /\
-  fst (dec_view view_memlen_witness) = 24 * 4294967295 /\
-  snd (dec_view view_memlen_witness) = MErr (ME EEOF).
-Proof. exact view_alloc_witness. Qed.
-(** REFUTED for nested messages: ReadMessage copies the body at every nesting level, so the allocation
-    is quadratic in the depth — a well-formed 16803-byte SchedulerMessage nested 600 deep allocates more
-    than its length plus the 4 MiB that bound every flat entry point *)
-Theorem C13_alloc_nested_refuted :
-  N.of_nat (length (nest 600)) = 16803 /\
-  decodes_fully (snd (no_codec_dec K_Scheduler (nest 600))) = true /\
-  N.of_nat (length (nest 600)) + 4194304 < fst (no_codec_dec K_Scheduler (nest 600)).
-Proof. exact nest_alloc_witness. Qed.
+(** every decoder of the universe, nested messages and cluster views included: on success at most 10
+    bytes are allocated per byte consumed; on failure at most 10 per input byte plus 2 MiB (the one
+    capped map or version vector whose announced entries the input did not deliver).  The member count of
+    a ClusterView is checked against the remaining input before the map is allocated; nested message
+    bodies are decoded in place. *)
+Theorem C13_alloc_message U hc cdec qerr newref (k : kind) (bs : bytes) :
+  match deserialize_remoting U hc cdec qerr newref k bs with
+  | (a, MOk (_, bs')) => (length bs' <= length bs)%nat /\ a + 10 * N.of_nat (length bs') <= 10 * N.of_nat (length bs)
+  | (a, MErr _) => a <= 10 * N.of_nat (length bs) + 2097152
+  end.
+Proof. exact (deserialize_linb U hc cdec qerr newref k bs). Qed.
+Theorem C13_alloc_read_message U hc cdec qerr newref (bs : bytes) :
+  match read_message U hc cdec qerr newref bs with
+  | (a, MOk (_, bs')) => (length bs' <= length bs)%nat /\ a + 10 * N.of_nat (length bs') <= 10 * N.of_nat (length bs)
+  | (a, MErr _) => a <= 10 * N.of_nat (length bs) + 2097152
+  end.
+Proof. exact (read_message_linb U hc cdec qerr newref bs). Qed.
+Theorem C13_alloc_envelope U hc cdec qerr newref (bs : bytes) :
+  match dec_envelope U hc cdec qerr newref bs with
+  | (a, MOk (_, bs')) => (length bs' <= length bs)%nat /\ a + 11 * N.of_nat (length bs') <= 11 * N.of_nat (length bs)
+  | (a, MErr _) => a <= 11 * N.of_nat (length bs) + 2097152
+  end.
+Proof. exact (dec_envelope_linb U hc cdec qerr newref bs). Qed.
+Theorem C13_alloc_view (bs : bytes) :
+  match dec_view bs with
+  | (a, MOk (_, bs')) => (length bs' <= length bs)%nat /\ a + 10 * N.of_nat (length bs') <= 10 * N.of_nat (length bs)
+  | (a, MErr _) => a <= 10 * N.of_nat (length bs) + 2097152
+  end.
+Proof. exact (linb_view bs). Qed.
 
 (** * encoding: every value of the universe, nil / typed-nil / non-pointer messages and nil fields
     included, gives bytes or an error *)
@@ -112,16 +125,8 @@ Theorem C13_encode_total_write_message U hc (cenc : U -> mres bytes) :
 Proof. exact (write_message_safe U hc cenc). Qed.
 Theorem C13_encode_total_envelope U hc (cenc : U -> mres bytes) :
   (forall (u : U) e, cenc u = MErr e -> ~ (e = MECrash \/ e = MEFuel)) ->
-  forall (e : envelope U) er,
-    e_sender U e <> RTypedNil -> e_receiver U e <> RTypedNil ->
-    enc_envelope U hc cenc e = MErr er -> ~ (er = MECrash \/ er = MEFuel).
+  forall (e : envelope U) er, enc_envelope U hc cenc e = MErr er -> ~ (er = MECrash \/ er = MEFuel).
 Proof. exact (enc_envelope_safe U hc cenc). Qed.
-(** REFUTED for an envelope whose sender is a typed nil pointer: [s != nil] holds, [s.GetAddress()]
-    dereferences nil outside any recover *)
-Theorem C13_encode_envelope_typed_nil_refuted U hc cenc sys r (m : msg U) b :
-  serialize_remoting U hc cenc m = MOk b -> kind_of U m <> None ->
-  enc_envelope U hc cenc {| e_system := sys; e_sender := RTypedNil; e_receiver := r; e_msg := m |} = MErr MECrash.
-Proof. exact (enc_envelope_typed_nil U hc cenc sys r m b). Qed.
 (** the nil fields the property names are errors, not crashes *)
 Theorem C13_encode_nil_fields :
   (forall r, enc_PongMessage None r = MErr MERecovered) /\
@@ -166,12 +171,13 @@ Print Assumptions C13_decode_total_view.
 Print Assumptions C13_alloc_flat.
 Print Assumptions C13_alloc_handshake.
 Print Assumptions C13_alloc_mapss.
-Print Assumptions C13_alloc_view_refuted.
-Print Assumptions C13_alloc_nested_refuted.
+Print Assumptions C13_alloc_message.
+Print Assumptions C13_alloc_read_message.
+Print Assumptions C13_alloc_envelope.
+Print Assumptions C13_alloc_view.
 Print Assumptions C13_encode_total.
 Print Assumptions C13_encode_total_write_message.
 Print Assumptions C13_encode_total_envelope.
-Print Assumptions C13_encode_envelope_typed_nil_refuted.
 Print Assumptions C13_encode_nil_fields.
 Print Assumptions C13_no_clobber_handshake.
 Print Assumptions C13_no_clobber_result.
